@@ -702,6 +702,16 @@ fn check_type(out: &mut Vec<Viol>, st: &ResolvedSemanticState, ix: &FileIndex, d
     // ---- methods
     let ms = methods_of(ix, &name);
     let by_name = |n: &str| -> Vec<&syn::ImplItemFn> { ms.iter().copied().filter(|m| m.sig.ident == n).collect() };
+    // two re-exposed or declared functions of one name are not callable (rustc rejects the impl): C07 "callable under its own name or
+    // under <field>_<name>", C05 "the emitted method" (F26). Names the user chose for the generated accessors are left to C13.
+    {
+        let mut seen: BTreeSet<String> = BTreeSet::new();
+        for f in td.associated_functions.iter() {
+            if !seen.insert(f.name.clone()) {
+                v(out, &["C07", "C05"], format!("{name}: two associated functions are called `{}`", f.name));
+            }
+        }
+    }
     let exp_fns: Vec<&Function> = td.associated_functions.iter().chain(td.vftable.iter().flat_map(|v| v.functions.iter())).filter(|f| !f.name.starts_with('_')).collect();
     let user_named = |n: &str| exp_fns.iter().any(|f| f.name == n);
     // C15 singleton accessor
